@@ -15,6 +15,8 @@
 (*   arrs   : Seq([ns : nsid, sd : nsid, n : Nat])      TreeArrays (sd =   *)
 (*            namespace of the split distribution, n = trees accessioned)  *)
 (*   ds     : [att : nsid or 0, lists : Seq(listid), mats : Seq(matid)]    *)
+(*   memos  : Seq(Seq(<<taxon, taxon>>))   caller-owned taxon_mapping_memo  *)
+(*            dictionaries (insertion order), handed to several calls      *)
 (* nsid 0 = None.  New objects get the next free identity.                 *)
 (*                                                                         *)
 (* Every container operation is a pure operator  U, args -> [u, raised];   *)
@@ -57,6 +59,7 @@ Sane(U) ==
     /\ (U.ds.att = 0 \/ HasNs(U, U.ds.att))
     /\ \A i \in 1..Len(U.ds.lists) : HasList(U, U.ds.lists[i])
     /\ \A i \in 1..Len(U.ds.mats) : HasMat(U, U.ds.mats[i])
+    /\ \A k \in 1..Len(U.memos) : \A i \in 1..Len(U.memos[k]) : HasTax(U, U.memos[k][i][1]) /\ HasTax(U, U.memos[k][i][2])
 
 \* ------------------------------------------------------------ the property
 \* Closure and RemovedKeepConsistentNs as a set of violation descriptors <<kind, container, member>>
@@ -131,14 +134,17 @@ ReqAll(U, n, ls, acc) == IF ls = <<>> THEN [u |-> U, refs |-> acc]
                          ELSE LET r == Require(U, n, Head(ls)) IN ReqAll(r.u, n, Tail(ls), Append(acc, r.t))
 
 \* reconstruct_taxon_namespace over a sequence of references (Tree: nodes in preorder)
+\* a taxon_mapping_memo is a sequence of pairs <<old taxon, its counterpart>> (a dict in insertion order)
+MHas(mm, o) == \E i \in 1..Len(mm) : mm[i][1] = o
+MGet(mm, o) == mm[CHOOSE i \in 1..Len(mm) : mm[i][1] = o][2]
 RECURSIVE Recon(_, _, _, _, _, _)
 Recon(U, n, refs, unify, memo, acc) ==
     IF refs = <<>> THEN [u |-> U, refs |-> acc, memo |-> memo]
     ELSE LET o == Head(refs) IN
          IF ~unify /\ o \in NsMem(U, n) THEN Recon(U, n, Tail(refs), unify, memo, Append(acc, o))
-         ELSE IF o \in DOMAIN memo THEN Recon(AddTax(U, n, memo[o]), n, Tail(refs), unify, memo, Append(acc, memo[o]))
+         ELSE IF MHas(memo, o) THEN Recon(AddTax(U, n, MGet(memo, o)), n, Tail(refs), unify, memo, Append(acc, MGet(memo, o)))
          ELSE LET r == IF unify THEN Require(U, n, U.labels[o]) ELSE NewTax(U, n, U.labels[o])
-              IN Recon(r.u, n, Tail(refs), unify, (o :> r.t) @@ memo, Append(acc, r.t))
+              IN Recon(r.u, n, Tail(refs), unify, Append(memo, <<o, r.t>>), Append(acc, r.t))
 
 \* ------------------------------------------------------------ trees
 TreeRecon(U, t, unify, memo) == LET r == Recon(U, U.trees[t].ns, U.trees[t].refs, unify, memo, <<>>)
@@ -234,6 +240,27 @@ OpTLUpdate(U, l) == COk(UpdTrees(U, U.lists[l].ns, U.lists[l].trees))
 OpTreeMigrate(U, t, n, unify) == COk(TreeMig(U, t, n, unify, <<>>).u)
 OpTreeClone(U, t, nsarg) == COk(CloneTree(U, t, NsArg(U, nsarg, U.trees[t].ns)))
 
+\* the same with a caller-owned taxon_mapping_memo (memo k of the universe): its entries take precedence over labels,
+\* their counterparts are added to the namespace, and what the call maps is recorded in it for the next call
+HasMemo(U, k) == k \in 1..Len(U.memos)
+OpTLAppendMemo(U, l, t, how, k) ==
+    LET n == U.lists[l].ns
+        r == IF U.trees[t].ns = n THEN [u |-> U, memo |-> U.memos[k]] ELSE TreeMig(U, t, n, TRUE, U.memos[k])
+    IN COk([r.u EXCEPT !.memos[k] = r.memo, !.lists[l].trees = IF how = "insert" THEN InsAt(@, 0, t) ELSE Append(@, t)])
+OpTLMigrateMemo(U, l, n, k) == LET r == TLMigrateM(U, l, n, TRUE, U.memos[k]) IN COk([r.u EXCEPT !.memos[k] = r.memo])
+OpTreeMigrateMemo(U, t, n, k) == LET r == TreeMig(U, t, n, TRUE, U.memos[k]) IN COk([r.u EXCEPT !.memos[k] = r.memo])
+\* trees built around a hand-made node structure: nodes carry existing taxa (refs, of any namespace) and brand-new
+\* Taxon objects (labs); Tree(seed_node=..) / new_tree(seed_node=..) add them all to the tree's namespace
+RECURSIVE FreshTaxa(_, _, _)
+FreshTaxa(U, labs, acc) == IF labs = <<>> THEN [u |-> U, refs |-> acc]
+    ELSE FreshTaxa([U EXCEPT !.labels = Append(@, Head(labs))], Tail(labs), Append(acc, Len(U.labels) + 1))
+SeedTree(U, n, refs, labs) == LET f == FreshTaxa(U, labs, <<>>)
+                                  U1 == [f.u EXCEPT !.trees = Append(@, [ns |-> n, refs |-> refs \o f.refs])]
+                              IN AddAll(U1, n, refs \o f.refs)
+OpTLNewTreeSeed(U, l, refs, labs) == COk([SeedTree(U, U.lists[l].ns, refs, labs) EXCEPT !.lists[l].trees = Append(@, Len(U.trees) + 1)])
+OpTreeFromSeed(U, nsarg, refs, labs) == LET U0 == IF nsarg = 0 THEN NewNs(U) ELSE U
+                                        IN COk(SeedTree(U0, NsArg(U, nsarg, Len(U0.ns)), refs, labs))
+
 \* ------------------------------------------------------------ TreeArray
 OpTAAdd(U, a, t) == IF U.trees[t].ns # U.arrs[a].ns THEN CErr(U, "TaxonNamespaceIdentityError")
                   ELSE COk([U EXCEPT !.arrs[a].n = @ + 1])
@@ -259,10 +286,10 @@ MatRecon(U, m, todo, unify, memo, ship) ==
     IF todo = <<>> THEN [u |-> U, memo |-> memo, raised |-> ""]
     ELSE LET o == Head(todo)  n == U.mats[m].ns IN
          IF ~unify /\ o \in NsMem(U, n) THEN MatRecon(U, m, Tail(todo), unify, memo, ship)
-         ELSE LET hit == o \in DOMAIN memo
-                  r == IF hit THEN [u |-> AddTax(U, n, memo[o]), t |-> memo[o]]
+         ELSE LET hit == MHas(memo, o)
+                  r == IF hit THEN [u |-> AddTax(U, n, MGet(memo, o)), t |-> MGet(memo, o)]
                        ELSE IF unify THEN Require(U, n, U.labels[o]) ELSE NewTax(U, n, U.labels[o])
-                  memo2 == IF hit THEN memo ELSE (o :> r.t) @@ memo
+                  memo2 == IF hit THEN memo ELSE Append(memo, <<o, r.t>>)
               IN IF r.t = o /\ ~ship THEN MatRecon(r.u, m, Tail(todo), unify, memo2, ship)
                  ELSE IF r.t \in SeqToSet(r.u.mats[m].rows)
                       THEN [u |-> r.u, memo |-> memo2, raised |-> "TaxonNamespaceReconstructionError"]
@@ -271,6 +298,8 @@ CMReconM(U, m, n, unify, memo) ==    \* n = namespace assigned first (migrate) o
     LET r == MatRecon([U EXCEPT !.mats[m].ns = n], m, U.mats[m].rows, unify, memo, ShipMatPartial)
     IN IF r.raised = "" \/ ShipMatPartial THEN r ELSE [r EXCEPT !.u.mats[m] = U.mats[m]]
 OpCMMigrate(U, m, n, unify) == LET r == CMReconM(U, m, n, unify, <<>>) IN [u |-> r.u, raised |-> r.raised]
+OpCMMigrateMemo(U, m, n, k) == LET r == CMReconM(U, m, n, TRUE, U.memos[k])
+                               IN [u |-> [r.u EXCEPT !.memos[k] = r.memo], raised |-> r.raised]
 OpCMReconstruct(U, m, unify) == OpCMMigrate(U, m, U.mats[m].ns, unify)
 OpCMUpdate(U, m) == COk(AddAll(U, U.mats[m].ns, U.mats[m].rows))
 \* X.from_dict({label: seq, ...}, taxon_namespace=n, case_sensitive_taxon_labels=n.is_case_sensitive)
@@ -385,6 +414,15 @@ Guard(U, a, x) ==     \* on a sane universe (Sane is checked separately: invaria
       [] a = "TLUpdate"        -> HasList(U, x.l)
       [] a = "TreeMigrate"     -> HasTree(U, x.t) /\ HasNs(U, x.n) /\ IsFree(U, x.t)
       [] a = "TreeClone"       -> HasTree(U, x.t) /\ NsArgOk(U, x.nsarg)
+      [] a = "TLAppendMemo"    -> HasList(U, x.l) /\ HasTree(U, x.t) /\ TreeFitsList(U, x.t, x.l) /\ HasMemo(U, x.k)
+      \* (a tree that occurs twice in the list would be mapped twice, the second time through the entries the first
+      \*  pass left in the caller's memo: not a history the property speaks about)
+      [] a = "TLMigrateMemo"   -> HasList(U, x.l) /\ HasNs(U, x.n) /\ MayMoveList(U, x.l, x.n) /\ HasMemo(U, x.k)
+                                  /\ Distinct(U.lists[x.l].trees)
+      [] a = "TreeMigrateMemo" -> HasTree(U, x.t) /\ HasNs(U, x.n) /\ IsFree(U, x.t) /\ HasMemo(U, x.k)
+      [] a = "CMMigrateMemo"   -> HasMat(U, x.m) /\ HasNs(U, x.n) /\ (MatInDs(U, x.m) /\ U.ds.att # 0 => x.n = U.ds.att) /\ HasMemo(U, x.k)
+      [] a = "TLNewTreeSeed"   -> HasList(U, x.l) /\ \A i \in 1..Len(x.refs) : HasTax(U, x.refs[i])
+      [] a = "TreeFromSeed"    -> NsArgOk(U, x.nsarg) /\ \A i \in 1..Len(x.refs) : HasTax(U, x.refs[i])
       [] a = "TAAdd"           -> HasArr(U, x.a) /\ HasTree(U, x.t)
       [] a = "TARead"          -> HasArr(U, x.a) /\ TreeSrcOk(x.srcs, U.ns[U.arrs[x.a].ns].cs)
       [] a = "CMNewSeq"        -> HasMat(U, x.m) /\ HasTax(U, x.t)
@@ -439,6 +477,12 @@ Apply(U, a, x) ==
       [] a = "TLUpdate"        -> OpTLUpdate(U, x.l)
       [] a = "TreeMigrate"     -> OpTreeMigrate(U, x.t, x.n, x.unify)
       [] a = "TreeClone"       -> OpTreeClone(U, x.t, x.nsarg)
+      [] a = "TLAppendMemo"    -> OpTLAppendMemo(U, x.l, x.t, x.how, x.k)
+      [] a = "TLMigrateMemo"   -> OpTLMigrateMemo(U, x.l, x.n, x.k)
+      [] a = "TreeMigrateMemo" -> OpTreeMigrateMemo(U, x.t, x.n, x.k)
+      [] a = "CMMigrateMemo"   -> OpCMMigrateMemo(U, x.m, x.n, x.k)
+      [] a = "TLNewTreeSeed"   -> OpTLNewTreeSeed(U, x.l, x.refs, x.labs)
+      [] a = "TreeFromSeed"    -> OpTreeFromSeed(U, x.nsarg, x.refs, x.labs)
       [] a = "TAAdd"           -> OpTAAdd(U, x.a, x.t)
       [] a = "TARead"          -> OpTARead(U, x.a, x.srcs)
       [] a = "CMNewSeq"        -> OpCMNewSeq(U, x.m, x.t)
@@ -473,6 +517,17 @@ MvImport(P, Q, Y, ts, strat) == <<MvTrees(P, Q, Y, IF strat = "migrate" THEN "by
 MvClones(P, Q, Y, srcns, ots, nts) == <<MvTrees(P, Q, Y, IF srcns = Y THEN "same" ELSE "bylabel", ots, nts)>>
 MvSrc(P, Q, Y, srcs, nts) == <<Mv(Y, "bylabel", Concat(srcs), [i \in 1..Len(Concat(srcs)) |-> 0], RefsOf(Q, nts), TRUE)>>
 MvRows(P, Q, Y, mode, orows, nrows) == <<Mv(Y, mode, LabsOf(P, orows), orows, nrows, FALSE)>>
+\* with an explicit memo: the references the memo already knew must land on its counterparts (whatever their labels:
+\* documented precedence), the others are unified by label
+PickSeq(q, I) == LET ix == SelectIdx(q, LAMBDA i : i \in I) IN [j \in 1..Len(ix) |-> q[ix[j]]]
+MvMemo(P, Q, Y, mm, ots, nts) ==
+    LET old == RefsOf(P, ots)  new == RefsOf(Q, nts) IN
+    IF Len(old) # Len(new) THEN <<Mv(Y, "bylabel", LabsOf(P, old), old, new, TRUE)>>
+    ELSE LET hit == {i \in 1..Len(old) : MHas(mm, old[i])}
+             rest == (1..Len(old)) \ hit
+             oh == PickSeq(old, hit)
+         IN <<Mv(Y, "same", LabsOf(P, oh), [j \in 1..Len(oh) |-> MGet(mm, oh[j])], PickSeq(new, hit), TRUE),
+              Mv(Y, "bylabel", LabsOf(P, PickSeq(old, rest)), PickSeq(old, rest), PickSeq(new, rest), TRUE)>>
 NewListId(P) == Len(P.lists) + 1
 NsOfList(Q, l) == IF HasList(Q, l) THEN Q.lists[l].ns ELSE 0
 RowsOf(Q, m) == IF HasMat(Q, m) THEN Q.mats[m].rows ELSE <<>>
@@ -503,6 +558,10 @@ Moves(P, a, x, Q) ==
       [] a = "TLRemoveAt"      -> <<MvTrees(P, Q, P.lists[x.l].ns, "same", P.lists[x.l].trees, P.lists[x.l].trees)>>
       [] a = "TreeMigrate"     -> <<MvTrees(P, Q, x.n, IF x.unify THEN "bylabel" ELSE "byidentity", <<x.t>>, <<x.t>>)>>
       [] a = "TreeClone"       -> MvClones(P, Q, NsArg(P, x.nsarg, P.trees[x.t].ns), P.trees[x.t].ns, <<x.t>>, <<Len(P.trees) + 1>>)
+      [] a = "TLAppendMemo"    -> IF P.trees[x.t].ns = P.lists[x.l].ns THEN <<MvTrees(P, Q, P.lists[x.l].ns, "same", <<x.t>>, <<x.t>>)>>
+                                  ELSE MvMemo(P, Q, P.lists[x.l].ns, P.memos[x.k], <<x.t>>, <<x.t>>)
+      [] a = "TLMigrateMemo"   -> MvMemo(P, Q, x.n, P.memos[x.k], P.lists[x.l].trees, P.lists[x.l].trees)
+      [] a = "TreeMigrateMemo" -> MvMemo(P, Q, x.n, P.memos[x.k], <<x.t>>, <<x.t>>)
       [] a = "CMMigrate"       -> MvRows(P, Q, x.n, IF x.unify THEN "bylabel" ELSE "byidentity", P.mats[x.m].rows, RowsOf(Q, x.m))
       [] a = "CMReconstruct"   -> MvRows(P, Q, P.mats[x.m].ns, IF x.unify THEN "bylabel" ELSE "byidentity", P.mats[x.m].rows, RowsOf(Q, x.m))
       [] a = "CMUpdate"        -> MvRows(P, Q, P.mats[x.m].ns, "same", P.mats[x.m].rows, RowsOf(Q, x.m))
